@@ -145,7 +145,7 @@ PROPS = {
         "assumptions": ["each storage operation is atomic; pre-emption inside a storage operation and real multi-threading are not modelled (limit stated in DESIGN.md)"],
     },
     "C13": {
-        "coq_deps": ["StoreFacts", "StoreConc", "PollProto"],
+        "coq_deps": ["StoreFacts", "StoreConc", "PollProto", "TxnProto"],
         "steps": [{"sub": "c13", "quick": [0], "thorough": [1], "timeout": 3000},
                   {"sub": "c11", "quick": [0], "thorough": [0], "timeout": 3000}],
         "rule": "a reader request (lookup of two labels, key history, audit, epoch hash) interleaved with a publish under explicit schedules, on the writer instance, on a separate uncached instance and on a separate cached instance whose view lags storage by 0-3 epochs; every Ok answer must name an (epoch, root hash) pair the directory published and verify against it; the change poller must make later requests use an epoch at least as new as the signalled one; the version-selection model is tied by the store-level lines of the c11 step",
